@@ -24,11 +24,12 @@ RULE = ('(paths) every sign pattern x magnitude template of up to k fills (k<=4 
         'net == sum qty; a re-mark leaves realised/net/buy/sell quantities identical and moves unrealised by '
         'dprice*net; portfolio totals == sums over positions. Tolerance 1e-9 x (sum|p*q| + sum c + |mv|). '
         'Non-trivial = both sides traded, non-zero open-side commission and net != 0 at a check; distinct = '
-        'distinct (sign pattern, trajectory, values).')
+        'distinct (sign pattern, trajectory, values).'
+        " Round-5 reach: (position driver) fills stamped before the position's time are attempted in between and must be refused, after which the position must reconcile to the ledger with or without the refused fill (never a mixture); the fill that opens a position may be 0.25-0.75 units.")
 ASSUMPTIONS = [
     'quantities are whole numbers (as Transaction documents) or, in a quarter of the random ladders, non-integers of at '
-    'least one unit; sub-unit fills are outside the domain (the code documents a fill whose floor is zero as "no '
-    'quantity" and ignores it), positive prices, non-negative commissions',
+    'least one unit; sub-unit fills other than the one opening a position are outside the domain (the code documents '
+    'a later fill whose floor is zero as "no quantity" and ignores it), positive prices, non-negative commissions',
     'floating point: identities asserted to 1e-9 of the gross traded value',
     'paths up to 6 fills enumerated, longer ladders sampled',
 ]
@@ -184,6 +185,34 @@ def run_case(case):
                 cls.add('net_exactly_1')
             if price <= 1.0:
                 cls.add('price_le_1')
+        if case.get('refused_fills') and driver == 'position' and pos is not None and i % 3 == 1 and ep.net != 0:
+            # a fill stamped before the position's own time is refused with ValueError.  Whether the refused fill counts
+            # as one of "its fills" is not stated - but the position must reconcile to one of the two ledgers: all the
+            # fills so far with, or without, the refused one (never to a mixture)
+            bad_q = float(case['refused_fills']) * (1 if i % 2 else -1)
+            bad = q.Transaction(a, bad_q, t - pd.Timedelta(days=3), price * 1.5 + 0.01, 'refused%d' % i, commission=7.25)
+            try:
+                pos.transact(bad)
+            except ValueError:
+                with_ = Episode()
+                with_.fills = list(ep.fills)
+                with_.add(bad_q, price * 1.5 + 0.01, 7.25)
+                try:
+                    _check(pos, ep, last[a], 'after a refused fill following fill %d (ledger without it)' % i)
+                except Violation as v1:
+                    try:
+                        _check(pos, with_, last[a], 'after a refused fill following fill %d (ledger with it)' % i)
+                    except Violation as v2:
+                        raise Violation('after a fill that was refused (timestamp before the position\'s) the position '
+                                        'reconciles neither to the fills without it (%s) nor to the fills including it (%s)' % (
+                                            str(v1)[:160], str(v2)[:160]))
+                    eps[a] = ep = with_
+                    if ep.net == 0:
+                        # the booked-but-refused fill closed the position: a fresh episode has nothing to compare
+                        return Result(sorted(cls | {'refused_fill_closed_position'}), nontrivial=nt)
+                cls.add('refused_fill_in_between')
+            else:
+                raise Violation('a fill dated before the position\'s time was accepted')
         for (ma, mprice) in marks.get(i, []):
             ma = names[ma if driver != 'position' else 0]
             if driver == 'position':
@@ -239,6 +268,8 @@ def run_case(case):
     cls.add(driver)
     if case.get('fractional'):
         cls.add('fractional_quantities')
+    if case.get('subunit_open'):
+        cls.add('position_opened_by_a_sub_unit_fill')
     if case.get('repeat_order_ids'):
         cls.add('fills_sharing_order_ids')
     if any(abs(f[1]) >= 100000 for f in fills):
@@ -295,6 +326,7 @@ def ladders(draw):
     na = 1 if driver == 'position' else draw(st.integers(1, 3))
     net = [0] * na
     fills, marks = [], []
+    subunit_open = False
     frac = draw(st.sampled_from([False, False, False, True]))      # non-integer quantities of at least one unit
     big = (not frac) and draw(st.sampled_from([False, False, False, True]))     # six-figure quantities
     comm = st.one_of(st.just(0.0), st.floats(0, 50).map(lambda x: round(x, 4)), st.sampled_from([0.01, 1.0]))
@@ -320,13 +352,18 @@ def ladders(draw):
             qty = mag if draw(st.booleans()) else -mag
         if abs(qty) < 1:          # sub-unit fills are outside the domain (documented as "no quantity" by the code)
             qty = (1.5 if frac else 1) * (1 if qty >= 0 else -1)
+        if frac and net[a] == 0 and (driver != 'position' or not fills) and draw(st.sampled_from([False, False, True])):
+            # ... except for the fill that opens a position, which is booked whatever its size
+            qty = draw(st.sampled_from([0.5, 0.25, -0.5, 0.75]))
+            subunit_open = True
         if driver != 'position' and draw(st.sampled_from([False] * 14 + [True])):
             qty = 0                 # an order sized down to zero shares
         net[a] += qty
         fills.append([a, qty, draw(gen.prices), draw(comm)])
         if draw(st.sampled_from([True, False, False])):
             marks.append([i, draw(st.integers(0, na - 1)), draw(gen.prices)])
-    return {'driver': driver, 'fills': fills, 'marks': marks, 'fractional': frac,
+    return {'subunit_open': subunit_open, 'driver': driver, 'fills': fills, 'marks': marks, 'fractional': frac,
+            'refused_fills': draw(st.sampled_from([0, 0, 3, 50])) if driver == 'position' else 0,
             'repeat_order_ids': draw(st.sampled_from([False, False, True])), 'bad_marks': draw(st.booleans()),
             'marks_without_dt': driver != 'portfolio' and draw(st.booleans())}
 
